@@ -8,6 +8,7 @@ mod c09;
 mod c10;
 mod c12;
 mod c13;
+mod c15;
 mod c17;
 mod c19;
 mod util;
@@ -36,6 +37,7 @@ fn main() {
         "C10" => c10::replay(&cases, &mut rep),
         "C12" => c12::replay(&cases, &mut rep),
         "C13" => c13::replay(&cases, &mut rep),
+        "C15" => c15::replay(&cases, &mut rep),
         "C17" => c17::replay(&cases, &mut rep),
         "C19" => c19::replay(&cases, &mut rep),
         p => tool_error(&format!("no replay driver for {p}")),
@@ -56,6 +58,8 @@ fn main() {
         "C12.list" => c12::record("list", seed, n, &mut out),
         "C12.cred" => c12::record("cred", seed, n, &mut out),
         "C13" => c13::record(seed, n, &mut out),
+        "C15.seq" => c15::record_seq(seed, n, &mut out),
+        "C15.race" => c15::record_race(seed, n, &mut out),
         "C19.OrderedSet" => c19::record_ordered_set(seed, n, &mut out),
         "C19.OneOrSet" => c19::record_one_or_set(seed, n, &mut out),
         "C19.OneOrMany" => c19::record_one_or_many(seed, n, &mut out),
